@@ -252,11 +252,27 @@ def gen_real_cases(ctx):
                       "fullscan": rng.random() < 0.3, "fetch": rng.choice([1, 2, 3]), "hashreq": rng.choice([2, 3, 5]),
                       "peers": peers, "lieanc": rng.choice([-1, -1, -1, -1, -2, rng.randrange(0, rl + 1)]),
                       "second": rng.random() < 0.5, "staleadd": rng.random() < 0.5, "timeoutms": 150})
+    # the HashFetcher's response timer (shortened) against a slow answer to the K-th hash request: the answer reaches the
+    # mailbox directly in front of / behind the timeout stop, or a little before / at / after the timer
+    T = 250
+    slow = [("hold", 0), ("after", 0)] + [("delay", int(T * f)) for f in (0.5, 0.9, 1.0, 1.1, 1.6)]
+    if quick:
+        slow = slow[:2] + rng.sample(slow[2:], 2)
+    for mode, d in slow:
+        for k in ((1, 2) if not quick else (rng.choice([1, 2]),)):
+            cases.append({"common": 0, "locallen": rng.randrange(0, 3), "remotelen": 12, "target": 12, "spliceat": 0, "fullscan": False,
+                          "fetch": 2, "hashreq": 4, "peers": [{"chain": "remote", "mode": "ok", "after": 0}] * 2, "lieanc": -1,
+                          "second": True, "staleadd": False, "timeoutms": 2000,
+                          "hftimeoutms": T, "hashk": k, "hashmode": mode, "hashdelayms": d})
     return cases
 
 
 def real_predicate(c, o):
     bad = []
+    for tag in ("s1", "s2"):
+        s_ = o.get(tag)
+        if s_ and s_.get("clean"):
+            bad.append((tag + ":session-end-not-clean", {"what": s_["clean"], "stop": s_["stop"]}))
     for tag, s, tgt in (("s1", o["s1"], c["target"]), ("s2", o.get("s2"), None)):
         if s is None:
             continue
@@ -287,7 +303,7 @@ def real_predicate(c, o):
     s1 = o["s1"]
     if s1["stop"] == "skipped":
         return bad
-    honest = all(p["mode"] in ("ok", "slow") for p in c["peers"]) and c["spliceat"] == 0 and c["lieanc"] == -1
+    honest = all(p["mode"] in ("ok", "slow") for p in c["peers"]) and c["spliceat"] == 0 and c["lieanc"] == -1 and not c.get("hashk")
     # a wall-clock timeout of the finder / fetch timers on a loaded machine is not a property failure
     timed_out = "imeout" in s1["stop"]
     if honest and s1["started"] and s1["stop"] != "ok" and not timed_out:
